@@ -720,6 +720,8 @@ class CallMixin:
         raise Unsupported(f"starred argument {v!r}")
 
     def apply_contract(self, c, recv, args, kwargs, st, node=None, constructing=False):
+        if c.trusted and self.c is not None and not self.spec_mode:
+            self.E.used_assumed.setdefault(c.target, set()).add(self.c.target)  # evidence: which assumed contracts the verified code relies on
         env = self.bind_call_args(c, recv, args, kwargs, st)
         cst = State()
         cst.env = env
